@@ -223,6 +223,22 @@ def tree2parameter(
         raise exceptions.UnknownTreeTypeError(datatype=s.data, atom="Parameter")
 
 
+def _same_definition(a: atoms.Atom, b: atoms.Atom) -> bool:
+    """Do two atoms with the same name define the same thing?
+
+    Atoms compare equal on name, value, components and annotations, but the
+    comparison of assignments ignores the expression tree (two assignments with
+    the same dependencies are equal), so compare the trees as well.
+    """
+    if type(a) is not type(b) or a != b:
+        return False
+    if isinstance(a, atoms.Assignment) and isinstance(b, atoms.Assignment):
+        if a.value is None or b.value is None:
+            return a.value is b.value
+        return a.value.tree == b.value.tree
+    return True
+
+
 class TreeToODE(lark.Transformer):
     """Transform a lark tree to an ODE
 
@@ -310,6 +326,7 @@ class TreeToODE(lark.Transformer):
         # breakpoint()
 
         comments = []
+        defined: dict[str, atoms.Atom] = {}
         for line in s:  # Each line in the block
             if isinstance(line, atoms.Comment):
                 comments.append(line)
@@ -320,6 +337,11 @@ class TreeToODE(lark.Transformer):
                 continue
 
             for atom in line:  # State, Parameters or Assignment
+                previous = defined.get(atom.name)
+                if previous is not None and not _same_definition(previous, atom):
+                    # The sets below would silently keep only one of them
+                    raise exceptions.DuplicateSymbolError({atom.name})
+                defined[atom.name] = atom
                 for component in atom.components:
                     components[component][mapping[type(atom)]].add(atom)
 
